@@ -732,7 +732,7 @@ func c131dec(c *an.Ctx, p *an.Prog) {
 	nOK := 0
 	an.EnumPaths(fn, nil, nil, func(s *an.PathState) {
 		ret := lastReturn(s)
-		if ret == nil || !ret.Args[0].IsConst("nil") {
+		if ret == nil || !(ret.Args[0].IsConst("nil") || s.IsNil(ret.Args[0])) {
 			return
 		}
 		nOK++
